@@ -19,6 +19,9 @@ EXTENDS Naturals, Sequences, FiniteSets, TLC, Json
 CONSTANTS MaxK, M, EmitRecords
 
 VARIABLES K, S, start, companions,
+          moveSql,       \* the evolution that carries MoveToDjangoMigrations also adds a column (x): it has SQL
+          declares,      \* ... and declares AFTER_MIGRATIONS = [('mig', '0002_m1')], the companion's pending
+                         \* migration, next to the dependencies the move itself generates
           premarked,     \* django_migrations already lists the migrations about to be marked (say, an
                          \* earlier `migrate --fake` with Django Evolution disabled)
           failFirst,     \* a first attempt of the upgrade fails at its first evolution statement
@@ -34,7 +37,7 @@ VARIABLES K, S, start, companions,
           sigMethod, sigApplied,
           pc, run
 
-vars == <<K, S, start, companions, premarked, failFirst, attempted, evoRecorded, evoExecuted, migRecorded, migExecuted,
+vars == <<K, S, start, companions, moveSql, declares, premarked, failFirst, attempted, evoRecorded, evoExecuted, migRecorded, migExecuted,
           soft, columns, sigMethod, sigApplied, pc, run>>
 
 (* evolution labels before the move, in sequence order *)
@@ -42,12 +45,15 @@ PreMove == [i \in 1..(K + (IF S > 1 THEN 1 ELSE 0)) |->
               IF i <= K THEN <<"e", i>> ELSE <<"em", 0>>]
 AllEvos == PreMove \o << <<"e_move", 0>> >>
 P == Len(PreMove)
-ColsOfEvo(l) == IF l[1] = "e" THEN { <<"c", l[2]>> }
+ColsOfEvo(l) == IF l[1] = "e_move" THEN (IF moveSql THEN { <<"x", 0>> } ELSE {})
+                ELSE IF l[1] = "e" THEN { <<"c", l[2]>> }
                 ELSE IF l[1] = "em" THEN { <<"m", i>> : i \in 1..(S - 1) } ELSE {}
 RECURSIVE ColsOfEvos(_)
 ColsOfEvos(seq) == IF seq = <<>> THEN {} ELSE ColsOfEvo(Head(seq)) \cup ColsOfEvos(Tail(seq))
 (* migration n (1-based): 1 creates the table with name and c1..cK, n > 1 adds m(n-1) *)
-ColsOfMig(n) == IF n = 1 THEN { <<"name", 0>> } \cup { <<"c", i>> : i \in 1..K } ELSE { <<"m", n - 1>> }
+ColsOfMig(n) == IF n = 1 THEN { <<"name", 0>> } \cup { <<"c", i>> : i \in 1..K }
+                               \cup (IF moveSql THEN { <<"x", 0>> } ELSE {})
+                ELSE { <<"m", n - 1>> }
 RECURSIVE ColsOfMigs(_)
 ColsOfMigs(ns) == IF ns = {} THEN {} ELSE LET n == CHOOSE x \in ns : TRUE IN ColsOfMig(n) \cup ColsOfMigs(ns \ {n})
 Prefix(seq, n) == SubSeq(seq, 1, n)
@@ -63,6 +69,8 @@ Starts == {<<"fresh", 0>>, <<"legacy", 0>>} \cup { <<"evo", j>> : j \in 0..P } \
 Init == /\ K \in 0..MaxK /\ S \in 0..M
         /\ start \in Starts
         /\ companions \in SUBSET {"blog", "mig"}
+        /\ moveSql \in BOOLEAN
+        /\ declares \in (IF moveSql /\ "mig" \in companions /\ start[1] = "evo" THEN BOOLEAN ELSE {FALSE})
         \* only when an evolution with SQL is pending is there a statement to fail at
         /\ failFirst \in (IF start[1] = "evo" /\ start[2] < P THEN BOOLEAN ELSE {FALSE})
         /\ attempted = FALSE
@@ -87,14 +95,14 @@ Init == /\ K \in 0..MaxK /\ S \in 0..M
                   /\ sigMethod = "migrations" /\ sigApplied = 1..start[2]
 
 Recorded == { n \in 1..M : migRecorded[n] > 0 }
-Step(next) == pc' = next /\ UNCHANGED <<K, S, start, companions, run, failFirst, attempted, premarked>>
+Step(next) == pc' = next /\ UNCHANGED <<K, S, start, companions, moveSql, declares, run, failFirst, attempted, premarked>>
 
 (* a failed attempt: the first evolution statement fails, the transaction is rolled back, and
    (as repaired, the marks being recorded only after all batches) nothing at all has changed *)
 FailedAttempt ==
     /\ pc = "begin" /\ failFirst /\ ~attempted /\ run = 1
     /\ attempted' = TRUE
-    /\ UNCHANGED <<K, S, start, companions, failFirst, premarked, run, pc, evoRecorded, evoExecuted, migRecorded,
+    /\ UNCHANGED <<K, S, start, companions, moveSql, declares, failFirst, premarked, run, pc, evoRecorded, evoExecuted, migRecorded,
                    migExecuted, soft, columns, sigMethod, sigApplied>>
 
 (* a brand-new app that ends up on migrations is created by its migrations; the whole
@@ -150,7 +158,7 @@ SaveSignature ==
 (* the second upgrade *)
 Rerun == /\ pc = "done" /\ run = 1
          /\ run' = 2 /\ pc' = "begin" /\ evoExecuted' = <<>> /\ migExecuted' = <<>> /\ soft' = <<>>
-         /\ UNCHANGED <<K, S, start, companions, failFirst, attempted, premarked, evoRecorded, migRecorded, columns,
+         /\ UNCHANGED <<K, S, start, companions, moveSql, declares, failFirst, attempted, premarked, evoRecorded, migRecorded, columns,
                         sigMethod, sigApplied>>
 
 Next == FailedAttempt \/ FreshInstall \/ RunEvolutions \/ MarkApplied \/ AlreadyOnMigrations \/ RunMigration
@@ -184,13 +192,17 @@ CompanionExpect ==
      blogRecorded |-> IF "blog" \in companions THEN <<"b1">> ELSE <<>>,
      migExecuted  |-> IF "mig" \in companions /\ run = 1
                       THEN (IF start[1] \in {"fresh", "legacy"} THEN <<1, 2>> ELSE <<2>>) ELSE <<>>,
-     migRecorded  |-> IF "mig" \in companions THEN <<1, 1>> ELSE <<>>]
+     migRecorded  |-> IF "mig" \in companions THEN <<1, 1>> ELSE <<>>,
+     \* the declared dependency: the companion's migration 0002 runs before the SQL of the evolution that
+     \* declares it (C09 on the handover)
+     migBeforeMove |-> declares /\ run = 1 /\ <<"e_move", 0>> \in SeqSet(evoExecuted)]
 
 RECURSIVE SetToSeq(_)
 SetToSeq(X) == IF X = {} THEN <<>> ELSE LET x == CHOOSE y \in X : TRUE IN <<x>> \o SetToSeq(X \ {x})
 
 Emit == (EmitRecords /\ Done) =>
           PrintT(<<"REC", ToJson([K |-> K, S |-> S, start |-> start, companions |-> SetToSeq(companions),
+                                   moveSql |-> moveSql, declares |-> declares,
                                    failFirst |-> failFirst, premarked |-> premarked,
                                    run |-> run, evoExecuted |-> evoExecuted, migExecuted |-> migExecuted, soft |-> soft,
                                    evoRecorded |-> SetToSeq(evoRecorded), migRecorded |-> migRecorded,
